@@ -31,7 +31,7 @@ EXCS = [['ValueError', ['x']], ['KeyError', ['k']], ['Boom', ['a', 1]], ['Boom2'
         ['RuntimeError', ['a', 'b', 'c']], ['StopIteration', [5]], ['TimeoutError', ['late']], ['ConnectionResetError', [104, 'reset']],
         # classes whose constructor rejects a lone str with something other than TypeError (validating / looking up / reading attributes)
         ['StatusError', [404]], ['CodeError', ['E2']], ['RespError', [503, 'busy']]]
-EXITS = [None, 0, 1, 3, 'bye', '', 0.0, [], False, True, {}]  # only None and the integer 0 mean success
+EXITS = [None, 0, 1, 3, 'bye', '', 0.0, [], False, True, {}, 256, 257, -1]  # only None and the integer 0 mean success (256 is 0 only for the OS)
 ACCESSORS = ['join', 'result', 'exception', 'done', 'exitcode', 'wait', 'as_completed']
 
 
@@ -70,12 +70,20 @@ def gen_cases(tier, seed):
         for phase in ('during', 'before'):
             for acc in ('join', 'wait', 'exception'):
                 sig.append({'kind': 'process', 'ending': ['signal', s, phase], 'first': acc})
+    # killed while it is logging without pause (its log pipe is full; the kill lands in the middle of handing records to the parent)
+    for s in ('SIGKILL', 'SIGTERM', 'SIGSEGV'):
+        for size in (50, 9000):
+            for acc in ('join', 'wait', 'exception'):
+                sig.append({'kind': 'process', 'ending': ['signal', s, 'logging', size], 'first': acc})
     for acc in ('join', 'result', 'exception', 'wait', 'as_completed'):
         prc.append({'kind': 'process', 'ending': ['return-unpicklable'], 'first': acc})
         prc.append({'kind': 'process', 'ending': ['os-exit', 7], 'first': acc})
         thr.append({'kind': 'thread', 'ending': ['return-unpicklable'], 'first': acc})
     for acc in ('join', 'result', 'exitcode'):
         prc.append({'kind': 'process', 'ending': ['no-target'], 'first': acc})
+    # a value the child can pickle and the parent cannot rebuild: the child has exited with code 0, yet there is no value to give
+    for acc in ('join', 'result', 'exception', 'wait'):
+        prc.append({'kind': 'process', 'ending': ['return-unrebuildable'], 'first': acc})
     # an exception that the child can pickle and the parent cannot rebuild: the type cannot survive, but every accessor must still end, consistently
     for acc in ('wait', 'as_completed', 'join', 'exception'):
         prc.append({'kind': 'process', 'ending': ['raise-unrebuildable', 'TwoArgInit', [1, 2]], 'first': acc})
@@ -89,11 +97,16 @@ def gen_cases(tier, seed):
     if tier == 'quick':
         rng.shuffle(prc)
         rng.shuffle(sig)
-        must = [c for c in prc if c['ending'][0] in ('return-unpicklable', 'os-exit', 'no-target', 'raise-unrebuildable')]
+        must = [c for c in prc if c['ending'][0] in ('return-unpicklable', 'os-exit', 'no-target', 'raise-unrebuildable', 'return-unrebuildable')]
         rare = [c for c in sig if c['ending'][1] not in ('SIGTERM', 'SIGKILL', 'SIGSEGV', 'SIGABRT', 'SIGINT')]
-        usual = [c for c in prc if c['ending'][0] not in ('return-unpicklable', 'os-exit', 'no-target', 'raise-unrebuildable')]
+        usual = [c for c in prc if c['ending'][0] not in ('return-unpicklable', 'os-exit', 'no-target', 'raise-unrebuildable', 'return-unrebuildable')]
         timed = [c for c in prc + sig if c['first'].endswith('-t')]
-        cases = thr + [c for c in usual if c not in timed][:70] + must[:6] + [c for c in must[6:] if c['ending'][0] in ('no-target', 'raise-unrebuildable')] + [c for c in sig if c not in rare and c not in timed][:34] + rare[:12] + timed
+        logk = [c for c in sig if c['ending'][0] == 'signal' and c['ending'][2] == 'logging']
+        sig = [c for c in sig if c not in logk]
+        wide = [c for c in usual if c['ending'][0] == 'exit' and isinstance(c['ending'][1], int) and not isinstance(c['ending'][1], bool) and c['ending'][1] in (256, 257, -1)
+                and c['first'] in ('join', 'exception')]
+        usual = [c for c in usual if c not in wide]
+        cases = thr + wide + logk + [c for c in usual if c not in timed][:70] + must[:6] + [c for c in must[6:] if c['ending'][0] in ('no-target', 'raise-unrebuildable', 'return-unrebuildable')] + [c for c in sig if c not in rare and c not in timed][:34] + rare[:12] + timed
     else:
         cases = thr + prc + sig
     rng.shuffle(cases)
@@ -135,6 +148,8 @@ def run_case(case):
         spec = ['sleep', 30]
     if ending[0] == 'signal':
         spec = ['sleep', 30] if ending[2] != 'after' else ['linger', 'lingered', 30]
+        if ending[2] == 'logging':
+            spec = ['log-loop', ending[3]]
         if ending[1] == 'SIGINT' and ending[2] == 'before':
             # a SIGINT that arrives while the child interpreter is still starting can be swallowed by CPython itself;
             # the target then simply runs: keep it short, and require only consistency among the accessors
@@ -165,6 +180,19 @@ def run_case(case):
             w = mt.Thread(target=targets.c12_target, args=(spec,), kwargs=kept_kwargs)
         else:
             w = mt.Thread(target=targets.c12_target, args=(spec,))
+    if ending[0] == 'signal' and ending[2] == 'logging':
+        # the parent's handler for these records takes 1 ms per record (a file, a socket): the child is ahead of it
+        import logging
+
+        class _Slow(logging.Handler):
+            def emit(self, record):
+                time.sleep(0.001)
+                obs['log_records_handled'] = obs.get('log_records_handled', 0) + 1
+
+        plg = logging.getLogger('vf.c12.loop')
+        plg.setLevel(logging.INFO)
+        plg.propagate = False
+        plg.handlers[:] = [_Slow()]
     t_start = time.monotonic()
     w.start()
 
@@ -175,6 +203,8 @@ def run_case(case):
         elif ending[0] == 'signal':
             if ending[2] != 'before':
                 ready.wait(20)
+            if ending[2] == 'logging':
+                time.sleep(0.3)  # the child has filled the pipe by now
             os.kill(w.pid, _signum(ending[1]))
             obs['signals_delivered'] = 1
 
@@ -278,9 +308,9 @@ def run_case(case):
             expect = ('value', None) if clean else ('error', 'SystemExit', [ending[1]])
         elif ending[0] == 'return-unpicklable' and not is_proc:
             expect = ('consistent',)  # a thread can return anything
-        elif ending[0] in ('return-unpicklable', 'os-exit', 'raise-unrebuildable'):
+        elif ending[0] in ('return-unpicklable', 'os-exit', 'raise-unrebuildable', 'return-unrebuildable'):
             expect = ('error', None, None)  # the child could not report: some error, consistently, in bounded time
-        elif ending[0] == 'terminate' or (ending[0] == 'signal' and ending[1] == 'SIGTERM' and ending[2] != 'after'):
+        elif ending[0] == 'terminate' or (ending[0] == 'signal' and ending[1] == 'SIGTERM' and ending[2] not in ('after',)):
             expect = ('value', None)
         elif ending[0] == 'signal' and ending[2] == 'after':
             expect = ('value', 'lingered')
@@ -341,7 +371,7 @@ def run_case(case):
             elif ending[0] in ('raise', 'raise-unrebuildable'):
                 want = 1
             elif ending[0] == 'exit':
-                want = int(ending[1]) if isinstance(ending[1], int) else 1
+                want = (int(ending[1]) & 0xFF) if isinstance(ending[1], int) else 1  # what the OS keeps of the code
             elif ending[0] == 'terminate':
                 want = -15
             elif ending[0] == 'os-exit':
@@ -369,4 +399,4 @@ def decide_inconclusive(obs, results, cases):
     return None
 
 
-RULE = RULE + '; falsy SystemExit codes; exception classes with validating constructors and one that cannot be rebuilt in the parent; Process / Thread without target; timed accessors used first'
+RULE = RULE + '; falsy SystemExit codes; exception classes with validating constructors and one that cannot be rebuilt in the parent; Process / Thread without target; timed accessors used first; exit codes beyond one byte (256, 257, -1) and a returned value the parent cannot rebuild (the OS-level exit code is 0 although the target did not end well)'
